@@ -1163,7 +1163,8 @@ Definition module_table (f : elffile) : symtab :=
   let offset := elf_offset true 0 (ef_vaddr0 f) in
   let st := load_symtab_gen symtab_prev_only_accepted true 0 (ef_vaddr0 f) (ef_symtab f) in
   let dyn := merge_symtabs (load_elf_dynsymtab true 0 (ef_plt f)) (noplt_syms offset (ef_reladyn f) (ef_globdat f)) in
-  fold_left (update_one offset) (ef_dynsym f) (merge_symtabs st dyn).
+  (* update_symtab_using_dynsym applies the adjustment to its own copy of the offset (generated flag) *)
+  fold_left (update_one (if dynsym_update_offset_adjusted then offset else 0)) (ef_dynsym f) (merge_symtabs st dyn).
 
 Fixpoint strictly_sorted (tab : symtab) : bool :=
   match tab with
